@@ -37,7 +37,8 @@ CLAIM = dict(
          "never panic, also on every filter decoded from a payload up to MAX_PAYLOAD_SIZE; the constructor yields <= 36000 bytes "
          "and <= 50 functions for every value (finite, +-inf, NaN) of its size formulas; filterload decode(encode f) = f with "
          "size() bytes in the BIP-37 layout. The model is tied to the code by a differential run against an independent Lean "
-         "MurmurHash3 (incl. the two BIP-37 vectors).",
+         "MurmurHash3 (incl. the two BIP-37 vectors); filterload encodings are also written through writers that accept only part of "
+         "what they are offered and decoded through readers that return short reads.",
     note="Trusted: Lean kernel; the model<->code tie is differential (bounded by the generators); floating-point evaluation of "
          "the size formulas is sampled, not proved. Defect repaired: empty bit field with >= 1 hash function panicked (% 0) in add/contains.",
 )
